@@ -12,10 +12,19 @@ OnRec(e) ==
            [s EXCEPT !.viol = Add(Add(s.viol, e.residual_ok, "PowerBalanceIsPhysicalData"), e.jacobian_ok, "JacobianIsExactDerivative")]
       [] e.e = "variant" ->
            [s EXCEPT !.viol = Add(Add(Add(s.viol, e.converged, "WellPosedNetworkConverges"), ~e.converged \/ e.same, "SolutionIndependentOfEncoding"),
-                                  ~e.converged \/ e.resid_ok, "ConvergedMeansBalanced")]
+                                  ~e.converged \/ e.resid_ok, "ConvergedMeansBalanced") \cup
+                              (IF e.converged /\ ~e.indep_ok THEN {"ConvergedMeansBalancedFromPhysicalData"} ELSE {})]
+      [] e.e = "qlim" ->      \* PV -> PQ conversion at reactive limits (SortedLimiter in the Newton loop)
+           [s EXCEPT !.viol = Add(Add(Add(Add(Add(s.viol, e.sticky, "ConvertedGeneratorStaysConverted"),
+                                                  ~e.converged \/ e.at_limit, "ConvertedGeneratorDeliversItsLimit"),
+                                              ~e.converged \/ e.at_setpoint, "ControlledBusesAtSetPoint"),
+                                          ~e.converged \/ e.onehot, "LimitFlagsOneHot"),
+                                      ~e.converged \/ e.indep_ok, "ConvergedMeansBalancedFromPhysicalData"),
+                     !.drift = Add(Add(s.drift, e.converged, "q_limited_network_did_not_converge"), ~e.converged \/ e.inside, "unconverted_generator_outside_limits")]
       [] e.e = "stock" ->
            [s EXCEPT !.viol = Add(Add(Add(Add(s.viol, ~e.raised, "PowerFlowNeverRaises"), ~e.converged \/ e.resid_ok, "ConvergedMeansBalanced"),
-                                      ~e.converged \/ e.setpoints_ok, "ControlledBusesAtSetPoint"), ~e.converged \/ ~e.nan, "NoNaNSolution")]
+                                      ~e.converged \/ e.setpoints_ok, "ControlledBusesAtSetPoint"), ~e.converged \/ ~e.nan, "NoNaNSolution") \cup
+                              (IF e.converged /\ ~e.indep_ok THEN {"ConvergedMeansBalancedFromPhysicalData"} ELSE {})]
       [] e.e = "samecase" ->
            [s EXCEPT !.viol = Add(Add(s.viol, e.same_success, "VariantsAgreeOnSuccess"), e.same_solution, "VariantsAgreeOnSolution")]
       [] e.e = "jac" ->
